@@ -1,4 +1,5 @@
-import BlugeProofs.C05.Events
+import BlugeProofs.C05.Seen
+import BlugeProofs.C05.Complete
 /-! # C05 — concurrent batches are linearizable; readers see a prefix of that order
 
 Property theorems only (lemmas: `BlugeProofs/C05/*.lean`; model, specification and checker: `Bluge/Lin.lean`, on top of
@@ -32,6 +33,18 @@ theorem intro_ignores_seen (safe : Bool) (evs : List Ev) (hwf : WF (State.init s
   intro s
   simp only [step_core, stepCore, upd_same]
   exact prepare_stale_irrelevant safe evs hwf b sid _ _
+
+/-- …and for the whole execution: replace what EVERY `Prepare` event saw by anything (`reseen g`: client `c` now looks
+at `history[g c]`); the result is again a well-formed execution, with the same writer state (every published root, the
+applied batches), the same linearisation, the same recorded root swaps and the same reader observations -/
+theorem seen_irrelevant (safe : Bool) (evs : List Ev) (hwf : WF (State.init safe) evs) (g : Nat → Nat) :
+    WF (State.init safe) (evs.map (reseen g)) ∧
+    (run safe (evs.map (reseen g))).core = (run safe evs).core ∧
+    (run safe (evs.map (reseen g))).lin = (run safe evs).lin ∧
+    (run safe (evs.map (reseen g))).slots = (run safe evs).slots ∧
+    (run safe (evs.map (reseen g))).reads = (run safe evs).reads := by
+  obtain ⟨h1, h2⟩ := sim_foldl safe g evs [] _ _ Reach.init (Sim.refl _) hwf
+  exact ⟨h1, h2.core, h2.lin, h2.slots, h2.reads⟩
 
 /-- **linearizability**: in EVERY well-formed execution (any number of clients, any interleaving, merges and persists
 in between, safe or unsafe mode) the order `introOrder evs` of the `IntroSegment` events is a linearisation:
@@ -139,6 +152,11 @@ theorem model_history_accepted (safe : Bool) (evs : List Ev) (hwf : WF (State.in
 names an explaining order -/
 theorem explains_sound (h : History) (he : explains h = true) : Explained h := Lin.explains_sound h he
 
+/-- **the checker decides the specification** (its bounded search over the placements of the unobserved batches is
+complete): it says yes exactly when SOME total order explains the history — so a `bad:` verdict of the driver on a
+history recorded from the real writer means that no order whatsoever explains it -/
+theorem explains_decides (h : History) : explains h = true ↔ Explained h := explains_iff_explained h
+
 theorem judge_sound (h : History) (o : List Nat) (hj : judge h = .ok o) : Accepts h o := judge_ok_accepts h o hj
 
 theorem judge_ok_iff_explains (h : History) : (∃ o, judge h = .ok o) ↔ explains h = true := judge_ok_iff h
@@ -169,6 +187,12 @@ example : WF (State.init false) demo ∧ introOrder demo = [2, 1, 3] ∧
     (run false demo).core.root.abs = [⟨7, 10⟩] ∧ absOf ((introOrder demo).map (batchIn demo)) = [⟨7, 10⟩] ∧
     ((run false demo).reads.map (fun r => (r.r, r.k, r.content))) =
       [(102, 3, [⟨7, 10⟩]), (101, 2, [⟨8, 21⟩, ⟨7, 10⟩]), (100, 1, [⟨7, 20⟩, ⟨8, 21⟩])] := by
+  decide
+
+/-- `reseen` really changes `demo` (client 3 looked two roots back; now everybody looks at the current root) -/
+example : WF (State.init false) (demo.map (reseen (fun _ => 0))) ∧
+    (demo.map (fun e => match e with | .prepare _ _ k => k | _ => 0)).sum = 2 ∧
+    ((demo.map (reseen (fun _ => 0))).map (fun e => match e with | .prepare _ _ k => k | _ => 0)).sum = 0 := by
   decide
 
 /-- in safe mode the same execution is NOT well-formed (a call returns without an acknowledgement) but is once the
